@@ -41,7 +41,10 @@ Inductive c14_case :=
    gunzip_bytes(gzip_bytes(b)), gzip.decompress(gzip_bytes(b)), gunzip_bytes(gzip.compress(b)) *)
 | CGzip (b : blob) (level : N) (o_head o_tail : list N) (o_rt o_dec o_enc : res blob)
 (* validation of the reference sh_split itself against real shells on a harmless text *)
-| CSpecSh (s : text) (shells : list (option (list text))).
+| CSpecSh (s : text) (shells : list (option (list text)))
+(* validation of the reference ms_split against a second, token-based transcription of the MS rules
+   (harness/c14.py ms_reference), for both variants of the doubled-quote rule *)
+| CSpecMs (s : text) (r_true r_false : list text).
 
 (* the round-trip statements are made for one-character delimiters that are
    distinct and neither a digit nor white space *)
@@ -93,6 +96,7 @@ Definition c14_agree (c : c14_case) : bool :=
       list_eqb N.eqb o_head [31; 139; 8] && list_eqb N.eqb o_tail (gz_trailer bb)
       && blob_res_is o_rt bb && blob_res_is o_dec bb && blob_res_is o_enc bb
   | CSpecSh _ _ => true
+  | CSpecMs _ _ _ => true
   end.
 
 Definition c14_holds (c : c14_case) : bool :=
@@ -138,6 +142,8 @@ Definition c14_holds (c : c14_case) : bool :=
       | Some ws => shells_ok shells ws
       | None => true                     (* the reference refuses: nothing claimed *)
       end
+  | CSpecMs s r_true r_false =>
+      texts_eqb (ms_split true s) r_true && texts_eqb (ms_split false s) r_false
   end.
 
 Definition c14_verdict (c : c14_case) : verdict := (c14_agree c, c14_holds c, false).
@@ -166,4 +172,5 @@ Definition c14_explain (c : c14_case) : c14_expl :=
            (int_ranges_from_int_list s d rd) []
   | CGzip b _ _ _ _ _ _ => XGzip (gz_trailer (expand b))
   | CSpecSh s _ => XSpec (sh_split s)
+  | CSpecMs s _ _ => XSpec (Some (ms_split true s))
   end.
